@@ -11,7 +11,7 @@ RULE = ("NetSpecs with finite-server, non-slotted, non-PS nodes, FIFO/LIFO/SIRO,
         "on-duty servers occupied.  Non-trivial: >= 1 customer with positive wait later served and >= 1 restart path other than "
         "plain departure (unblocking, shift change, pre-emption, renege or class change); distinct by spec digest.")
 ASSUMPTIONS = ["time advances only between events, so the after-event invariant is equivalent to 'starts at the instant a server frees'"]
-WALL = {"quick": 50, "thorough": 540}
+WALL = {"quick": 150, "thorough": 540}
 
 
 def nontrivial(a, spec, res):
@@ -27,4 +27,4 @@ def subchecks(tier):
     prof = common.full_profile(horizon=(6.0, 18.0), load="heavy")
     prof.weights.update({"ps": 0.0, "inf": 0.1, "slotted": 0.0, "schedule": 0.45, "discipline": 0.5})
     return [system_subcheck("lattice", prof, lambda spec: [WorkConservation()], nontrivial, classes=classes,
-                            n={"quick": 3200, "thorough": 50000}, rule="finite-server lattice; idle-server-vs-waiting monitor + coverage audit")]
+                            n={"quick": 9600, "thorough": 50000}, rule="finite-server lattice; idle-server-vs-waiting monitor + coverage audit")]
